@@ -344,7 +344,12 @@ def sub(x, y, out=None, out_like=None, sizing='optimal', method='raw', **kwargs)
     """
     def _sub_raw(x, y, n_frac):
         raw_cast = _raw_cast(x, y, max(x.n_word + n_frac - x.n_frac, y.n_word + n_frac - y.n_frac) + 1)
-        return raw_cast(x.val) * 2**(n_frac - x.n_frac) - raw_cast(y.val) * 2**(n_frac - y.n_frac)
+        x_raw, y_raw = raw_cast(x.val), raw_cast(y.val)
+        if not x.signed and not y.signed and np.asarray(x_raw).dtype.kind == 'u':
+            # the difference of two unsigned codes can be negative: it is computed with signed integers
+            # (the aligned codes fit in 63 bits here, wider ones were already turned into python integers)
+            x_raw, y_raw = np.asarray(x_raw).astype(np.int64), np.asarray(y_raw).astype(np.int64)
+        return x_raw * 2**(n_frac - x.n_frac) - y_raw * 2**(n_frac - y.n_frac)
 
     if not isinstance(x, Fxp):
         x = Fxp(x)
